@@ -20,6 +20,21 @@ REPO = "/repo"
 
 # (property, relative file, old text, new text, substring of the unit expected to fail)
 MUTANTS = [
+    ("C09", "unified_planning/engines/factory.py",
+     "                problem_kind = EngineClass.resulting_problem_kind(\n                    problem_kind, compilation_kind\n                )\n",
+     "                EngineClass.resulting_problem_kind(\n                    problem_kind, compilation_kind\n                )\n", "pipeline"),
+    ("C09", "unified_planning/engines/factory.py",
+     "                compiler.default = compilation_kind\n", "                compiler.default = None\n", "pipeline"),
+    ("C09", "unified_planning/engines/factory.py",
+     "                compilers.append(compiler)\n", "                compilers.insert(0, compiler)\n", "pipeline"),
+    ("C09", "unified_planning/engines/factory.py",
+     "        return EngineClass.supports(problem_kind)\n", "        return True\n", "_engine_satisfies_conditions"),
+    ("C09", "unified_planning/engines/factory.py",
+     "            if compilation_kind is not None and not EngineClass.supports_compilation(\n                compilation_kind\n            ):\n                return False\n        elif operation_mode == OperationMode.ANYTIME_PLANNER:",
+     "            if compilation_kind is None and not EngineClass.supports_compilation(\n                compilation_kind\n            ):\n                return False\n        elif operation_mode == OperationMode.ANYTIME_PLANNER:", "_engine_satisfies_conditions"),
+    ("C09", "unified_planning/engines/factory.py",
+     "            ):\n                return EngineClass\n            elif getattr(EngineClass, \"is_\" + operation_mode.value)():",
+     "            ):\n                return self._engines[self._preference_list[0]]\n            elif getattr(EngineClass, \"is_\" + operation_mode.value)():", "_get_engine_class"),
     ("C24", "unified_planning/model/effect.py",
      "            else:\n                fluents_assigned[effect.fluent] = effect.value\n",
      "            fluents_assigned[effect.fluent] = effect.value\n", "check_conflicting_effects"),
